@@ -3,5 +3,5 @@
 f="$1"; e="$2"; shift 2
 cd /repo && sed -i "$e" "$f" && git diff --stat | tail -1
 if ! GOFLAGS=-mod=mod GOPROXY=off go build ./... ; then echo "MUTANT DOES NOT BUILD"; git checkout -- .; exit 2; fi
-for p in "$@"; do out=$(/verif/bin/check $p 2>&1); echo "$p rc=$? viol=$(echo "$out" | grep -c '^VIOLATION') $(echo "$out" | grep -A1 '^VIOLATION' | grep obligation | head -2 | cut -c1-160)"; done
+for p in "$@"; do out=$(GOVC_NO_EVIDENCE=1 /verif/bin/check $p 2>&1); echo "$p rc=$? viol=$(echo "$out" | grep -c '^VIOLATION') $(echo "$out" | grep -A1 '^VIOLATION' | grep obligation | head -2 | cut -c1-160)"; done
 git checkout -- "$f"
